@@ -78,9 +78,13 @@ fn pool() -> Vec<Val> {
 const ABSENT: i64 = -1;
 
 /// one delivery of the record with identity tuple (g, h) (pool indices or ABSENT)
-fn deliver(rng: &mut Rng, g: i64, h: i64, mode_whole: bool, uid: u32, level: u8) -> Vec<u8> {
+fn deliver(rng: &mut Rng, g: i64, h: i64, mode_whole: bool, uid: u32, level: u8, keep: Option<bool>) -> Vec<u8> {
     let p = pool();
     let mut members: Vec<(String, Val)> = Vec::new();
+    if let Some(k) = keep {
+        // an unselected field an upstream --filter looks at
+        members.push(("keep".into(), Val::Bool(k)));
+    }
     if !mode_whole {
         // fields that are not selected may differ between deliveries
         if rng.chance(1, 2) {
@@ -167,16 +171,24 @@ impl Property for C10 {
                 }
             }
         }
+        // a lossy stage upstream of --unique: deliveries it rejects never become rows, so the
+        // first *accepted* delivery of a record is its first occurrence
+        let filtered = !mode_whole && rng.chance(1, 3);
         let mut seen = vec![false; tuples.len()];
         for i in order {
             let (g, h, uid) = tuples[i];
             let level = if rng.chance(1, 3) { 2 } else { 1 };
-            let bytes = deliver(rng, g, h, mode_whole, uid, level);
+            let keep = if filtered { Some(rng.chance(2, 3)) } else { None };
+            let bytes = deliver(rng, g, h, mode_whole, uid, level, keep);
             let mut p = Piece::rec(bytes, i as u32);
-            if seen[i] {
-                p.tag = "redelivery".into();
+            if keep == Some(false) {
+                p.tag = "rejected".into();
+            } else {
+                if seen[i] {
+                    p.tag = "redelivery".into();
+                }
+                seen[i] = true;
             }
-            seen[i] = true;
             case.pieces.push(p);
             case.pieces.push(Piece::gap(gen_gap(rng, b"1", b"1", false)));
         }
@@ -188,8 +200,18 @@ impl Property for C10 {
             if rng.chance(1, 4) {
                 case.opts.push(vec![format!("--output-style={}", rng.pick(&["csv", "text"]))]);
             }
+            if filtered {
+                case.opts.push(vec!["--filter=.keep".into()]);
+            }
         } else if rng.chance(1, 4) {
             case.opts.push(vec![format!("--style={}", rng.pick(&["consise", "pretty"]))]);
+        }
+        // stages downstream of --unique see exactly the first occurrences
+        if rng.chance(1, 5) {
+            case.opts.push(vec![format!("--skip={}", rng.below(3))]);
+        }
+        if rng.chance(1, 5) {
+            case.opts.push(vec![format!("--take={}", rng.range(1, 6))]);
         }
         case.hash_seeds = (0..3).map(|_| rng.next_u64() >> 1).collect();
         case.set("pairs_seed", (rng.next_u64() >> 1) as i64);
@@ -208,7 +230,9 @@ impl Property for C10 {
         let mut firsts: Vec<u8> = Vec::new();
         let mut redeliveries = 0u64;
         for p in &case.pieces {
-            if p.kind == Kind::Rec {
+            if p.kind == Kind::Rec && p.tag == "rejected" {
+                ctx.stats.probe("delivery rejected by the upstream filter");
+            } else if p.kind == Kind::Rec {
                 let id = p.id.unwrap();
                 if seen.contains(&id) {
                     redeliveries += 1;
